@@ -206,3 +206,58 @@ PROPS['C06'] = dict(
           'failing early-stopping algorithm is reported and a later check reaches the algorithm again',
           '5 exception classes, first/every call, ACTIVE/STOPPING trial, with/without an old finished operation'),
     ])
+
+
+def _pareto_obls():
+  out = []
+  quick_algos = ['naive', 'fast0', 'fast1', 'fast2', 'jax', 'fastjax1', 'frontier2', 'frontier3', 'nsga2rank']
+  for a in quick_algos:
+    out.append(O('C11.%s_3x2' % a, 'harness.c11_pareto', 'points_3x2', 120, 600,
+                 '%s agrees with the non-dominance definition on every order type' % a,
+                 '3 points x 2 coordinates: all 169 order types (ties, duplicates included), coordinates unbounded',
+                 env={'VERIF_PARETO': a}))
+  for a in ['naive', 'fast1', 'jax']:
+    out.append(O('C11.%s_3x1' % a, 'harness.c11_pareto', 'points_3x1', 60, 300, '%s, single coordinate' % a,
+                 '3 points x 1 coordinate', env={'VERIF_PARETO': a}))
+    out.append(O('C11.%s_against_1v2' % a, 'harness.c11_pareto', 'against_1v2', 120, 600,
+                 '%s.is_pareto_optimal_against, strict and non-strict' % a, '1 point vs 2 points x 2 coordinates',
+                 env={'VERIF_PARETO': a}))
+  for a in ['naive', 'fast1', 'fast2', 'jax', 'nsga2rank']:
+    out.append(O('C11.%s_3x3' % a, 'harness.c11_pareto', 'points_3x3', None, 1500, '%s, 3 coordinates' % a,
+                 '3 points x 3 coordinates: 2197 order types', env={'VERIF_PARETO': a}))
+  for a in ['naive', 'fast1', 'fast2', 'fast3', 'jax']:
+    for k in range(9):
+      out.append(O('C11.%s_4x2_s%d' % (a, k), 'harness.c11_pareto', 'points_4x2', None, 1500, '%s, 4 points' % a,
+                   '4 points x 2 coordinates: 5625 order types, slice %d/9' % k,
+                   env={'VERIF_PARETO': a, 'VERIF_SLICE': str(k)}))
+  for a in ['naive', 'fast1', 'jax']:
+    out.append(O('C11.%s_against_2v2' % a, 'harness.c11_pareto', 'against_2v2', None, 2400,
+                 '%s.is_pareto_optimal_against' % a, '2 points vs 2 points x 2 coordinates', env={'VERIF_PARETO': a}))
+  out += [
+      O('C11.list_optimal_2metrics', 'harness.c11_pareto', 'list_optimal_2metrics', 300, 900,
+        'ListOptimalTrials = non-dominated SUCCEEDED trials carrying every metric, under MAXIMIZE/MINIMIZE goals',
+        '3 trials (SUCCEEDED / missing metric / INFEASIBLE / ACTIVE) x all order types of 2 metrics'),
+      O('C11.list_optimal_single', 'harness.c11_pareto', 'list_optimal_single', 120, 600,
+        'single-objective: all trials attaining the best value', '3 trials, all order types'),
+      O('C11.list_optimal_nan', 'harness.c11_pareto', 'list_optimal_nan', 120, 600,
+        'a trial whose objective is NaN is never reported', '3 SUCCEEDED trials, trial 1 objective NaN'),
+      O('C11.best_trials_multi', 'harness.c11_pareto', 'best_trials_multi', 200, 600,
+        'InRamPolicySupporter.GetBestTrials (multi-objective)', '3 trials (feasible / infeasible / ACTIVE), 2 metrics'),
+      O('C11.best_trials_single', 'harness.c11_pareto', 'best_trials_single', 120, 600,
+        'InRamPolicySupporter.GetBestTrials (single objective): all tied top trials', '3 trials'),
+  ]
+  return out
+
+
+PROPS['C11'] = dict(
+    level='model_checking',
+    encoded=['NaiveParetoOptimalAlgorithm.is_pareto_optimal/is_pareto_optimal_against',
+             'FastParetoOptimalAlgorithm (thresholds 0..3, naive and JAX base)', 'xla_pareto.is_frontier/'
+             'JaxParetoOptimalAlgorithm', 'nsga2._pareto_rank', 'VizierServicer.ListOptimalTrials',
+             'InRamPolicySupporter.GetBestTrials'],
+    bounds='order-type partition: n <= 3 points x d <= 2 coordinates in the quick tier (n=4,d=2 and n=3,d=3 thorough), '
+           'coordinates are unbounded integers (all order types incl. ties and duplicates)',
+    outside='n*d > 9; +-inf/NaN inside the library routines; objective values that collide in float32 (GetBestTrials '
+            'converts labels to float32); SafetyChecker warping',
+    assumptions=['comparison-only data dependence of the numeric Pareto routines (read off the code)'],
+    obligations=_pareto_obls())
